@@ -211,6 +211,14 @@ func genEntries(r *Rng, n int, o Opt) (es []Entry, profile string) {
 		if r.Chance(2, 3) && n > 64 {
 			a = r.Intn(64)
 		}
+		if r.Chance(1, 3) { // the last entry of a chunk, repeated as the first of the next
+			for _, c := range []int{63, 127, 191} {
+				if c+1 < n && r.Chance(1, 2) {
+					a = c
+					break
+				}
+			}
+		}
 		b := genBad(r, o)
 		if r.Chance(2, 3) { // prefer entries that satisfy the group equation and are rejected by a rule
 			b.K = []string{"tor", "tor0", "smRv", "sL", "tor0", "tor"}[r.Intn(6)]
@@ -218,6 +226,9 @@ func genEntries(r *Rng, n int, o Opt) (es []Entry, profile string) {
 		}
 		b.Key, b.ML = es[a].Key, es[a].ML
 		es[a] = b
+		if a+1 < n && r.Chance(1, 2) {
+			es[a+1] = Entry{K: "dup", P: a}
+		}
 		for _, p := range []int{64, 65, 66, 128, 129, 192, a + 1, a + 64, n - 1} {
 			if p > a && p < n && r.Chance(2, 3) {
 				es[p] = Entry{K: "dup", P: a}
